@@ -909,7 +909,41 @@ fn seq_calls(calls: &[Call]) -> Vec<Call> {
 }
 
 /// Execute one record's run(s) on an already built scenario.
+/// A rendezvous directive only makes sense between systems that the executed plan puts into
+/// different groups of ONE stage of one builder (that is how `plan_runs` makes them). A scenario
+/// edited afterwards - by the minimiser, by hand - may no longer be like that; it then says nothing
+/// about C11 and is not run.
+pub fn rendezvous_well_formed(sc: &Scenario, layout: &crate::build::Layout, infos: &[SysInfo]) -> bool {
+    let mut groups: Vec<u64> = sc.faults.iter().filter(|f| f.kind == FaultKind::Rendezvous).map(|f| f.arg).collect();
+    groups.sort();
+    groups.dedup();
+    for g in groups {
+        let members: Vec<usize> = sc.faults.iter().filter(|f| f.kind == FaultKind::Rendezvous && f.arg == g).map(|f| f.sid).collect();
+        if members.len() < 2 {
+            return false;
+        }
+        let mut seen: Vec<(Option<usize>, usize, usize)> = Vec::new();
+        for &m in &members {
+            let (Some(i), Some(Some((st, gr, _)))) = (infos.get(m), layout.pos.get(m)) else { return false };
+            let key = (i.parent, *st, *gr);
+            if let Some(first) = seen.first() {
+                if first.0 != key.0 || first.1 != key.1 {
+                    return false; // another builder or another stage
+                }
+            }
+            if seen.contains(&key) {
+                return false; // two members in one group run one after the other
+            }
+            seen.push(key);
+        }
+    }
+    true
+}
+
 pub fn eval_on(b: &mut Built, sc: &Scenario, mode: &str, strat: &StratSpec, rs: u64, trace: Option<Vec<u32>>) -> RecordOut {
+    if b.layout.ident_panic.is_none() && !rendezvous_well_formed(sc, &b.layout, &b.ctx.infos) {
+        return RecordOut { violations: vec![], digest: 0, trace: vec![], steps: 0, switches: 0, tasks: 0, inter_digest: 0, overlap_pairs: 0, max_busy: 0, fired: vec![] };
+    }
     let ro = run_calls(b, sc, strat, rs, trace);
     let mut ov = 0;
     let mut vs = eval_run(sc, b, &ro, &mut ov);
